@@ -16,6 +16,7 @@ package circuitbreaker
 
 import (
 	"fmt"
+	"math"
 	"reflect"
 	"sync"
 
@@ -579,7 +580,9 @@ func IsValidRule(r *Rule) error {
 	if r.RetryTimeoutMs <= 0 {
 		return errors.New("invalid RetryTimeoutMs")
 	}
-	if r.Threshold < 0.0 {
+	if r.Threshold < 0.0 || math.IsNaN(r.Threshold) || math.IsInf(r.Threshold, 0) {
+		// (no count or ratio ever reaches a threshold that is not a number: such a rule is reported
+		// and never trips)
 		return errors.New("invalid Threshold")
 	}
 	if r.Strategy == SlowRequestRatio && r.Threshold > 1.0 {
